@@ -103,7 +103,7 @@ def run(ctx):
     data = dict(data)
     data['X'] = data['X'] * units
     ctx.hist('units', units)
-    gam = [0.1, 1.0, 10.0, np.inf][int(rng.integers(0, 4))]
+    gam = [0.1, 1.0, 10.0, np.inf, float('inf')][int(rng.integers(0, 5))]   # infinity as numpy's constant and as another float object (e.g. after unpickling)
     kw = dict(gamma=gam, max_iter=int(rng.choice([1, 2, 5, 20, 200])),
               prior=prior if prior != 'array' else fits.spd_array(rng, d) / units ** 2,
               random_state=int(rng.integers(0, 100)), tol=float([1e-3, 1e-3, 1e-6, 1e-9][int(rng.integers(0, 4))]))
@@ -176,7 +176,7 @@ def run(ctx):
   for rep in range(12 if thorough else 5):
     data = fits.make_data(rng, d=int(rng.integers(2, 5)))
     d = data['d']
-    gam = [0.5, 1.0, 4.0, np.inf][int(rng.integers(0, 4))]
+    gam = [0.5, 1.0, 4.0, np.inf, float('inf')][int(rng.integers(0, 5))]
     P0 = fits.spd_array(rng, d)
     use_cov = bool(rng.random() < 0.4)
     tol = float([1e-3, 1e-6][int(rng.integers(0, 2))])
